@@ -40,6 +40,8 @@ def judge (what : String) (model : String) (obs : List String) (documented : Boo
   let o := " ".intercalate obs
   if o = model then "ok"
   else if documented || o.startsWith "err:other" then s!"PROPFAIL C20 documented_error {what} expected={model} observed={o}"
+  -- a valid neighbour of the invalid input: C20 states that documented invalid inputs throw, not that (or with
+  -- which result) the valid ones are accepted - model comparison only
   else s!"MISMATCH {what} model={model}"
 
 def exc {α : Type} (r : Except ErrKind α) (okText : α → String) : String :=
@@ -127,15 +129,25 @@ def handle (st : State) (cmd : String) (inp obs : List String) : State × String
             (st, " ;; ".intercalate (range ++ [s!"PROPFAIL C12 mean_rejected expected={errTok e} observed=ok",
                   s!"PROPFAIL C20 documented_error err.weatherdist expected={errTok e} observed=ok"]))
           | .ok out =>
-            -- correspondence (not a property): a cell with deviation 0 gets exactly its mean
-            let bad := (List.range means.length).filter fun k => sds[k]! == 0 && vs[k]! != out[k]!
+            -- C12: the coefficient is DRAWN FROM THE DISTRIBUTION of its cell; with standard deviation 0 that
+            -- distribution is the point mass at the mean, so the cell gets exactly its mean (`C12_weather_degenerate`,
+            -- right-hand side `means[k]`, computed from the line's inputs)
+            let bad := (List.range means.length).filter fun k => sds[k]! == 0 && vs[k]! != means[k]!
+            -- what is left to the model: nothing for deviation 0; cells with a positive deviation depend on the
+            -- unknown normal draw and are judged by the range predicate only
+            let badM := (List.range means.length).filter fun k => sds[k]! == 0 && vs[k]! != out[k]!
             if !range.isEmpty then (st, " ;; ".intercalate range)
-            else if bad.isEmpty then (st, "ok") else (st, s!"MISMATCH err.weatherdist degenerate cells={bad} model={out}")
+            else if !bad.isEmpty then
+              (st, s!"PROPFAIL C12 weather_degenerate cells={bad}: standard deviation 0, so the draw from the distribution is the mean; means={bad.map fun k => means[k]!} observed={bad.map fun k => vs[k]!}")
+            else if badM.isEmpty then (st, "ok") else (st, s!"MISMATCH err.weatherdist degenerate cells={badM} model={out}")
         | none => (st, "BADLINE")
       | [e] =>
         (st, match modelErr with
           | .error k => if e = errTok k then "ok" else s!"PROPFAIL C20 documented_error err.weatherdist expected={errTok k} observed={e}"
-          | .ok _ => s!"MISMATCH err.weatherdist model=ok observed={e}")
+          -- means inside [0,1] and equal shapes rejected: C12 / C20 state the rejection of out-of-range means only
+          -- (no theorem says the others are accepted); an exception outside the standard classes is C20's in any case
+          | .ok _ => if e.startsWith "err:other" then s!"PROPFAIL C20 documented_error err.weatherdist expected=ok observed={e}"
+                     else s!"MISMATCH err.weatherdist model=ok observed={e}")
       | _ => (st, "BADLINE")
     | _, _, _, _, _, _ => (st, "BADLINE")
   | _, _ => (st, "BADLINE")
